@@ -35,6 +35,7 @@
 #define SAMPLES_PER_DATA_MIN            (SAMPLE_DECIMATE_FACTOR_MIN)
 #define ENTRIES_PER_SUMMARY_MIN         (SAMPLE_DECIMATE_FACTOR_MIN)
 #define SUMMARY_DECIMATE_FACTOR_MIN     (SAMPLE_DECIMATE_FACTOR_MIN)
+#define SIGNAL_DEF_PARAMETER_MAX        (1U << 24)  // keeps the 32-bit rounding and buffer size arithmetic from wrapping
 #define F64_BUF_LENGTH_MIN (1 << 16)
 #if defined(JLS_VERIF) && defined(JLS_VERIF_F64_BUF_LENGTH_MIN)
 #undef F64_BUF_LENGTH_MIN
@@ -215,6 +216,13 @@ static void signal_def_defaults(struct jls_signal_def_s * def) {
 
 int32_t jls_core_signal_def_align(struct jls_signal_def_s * def) {
     signal_def_defaults(def);
+    if ((def->samples_per_data > SIGNAL_DEF_PARAMETER_MAX)
+            || (def->sample_decimate_factor > SIGNAL_DEF_PARAMETER_MAX)
+            || (def->entries_per_summary > SIGNAL_DEF_PARAMETER_MAX)
+            || (def->summary_decimate_factor > SIGNAL_DEF_PARAMETER_MAX)) {
+        JLS_LOGE("signal %d definition parameter too large", (int) def->signal_id);
+        return JLS_ERROR_PARAMETER_INVALID;
+    }
     uint8_t sample_size = jls_datatype_parse_size(def->data_type);
     uint32_t samples_per_data_multiple = (SAMPLE_SIZE_BYTES_MAX * 8) / sample_size;
 
